@@ -360,7 +360,8 @@ theorem lookup_eq_window (st : Store α) (A : List (List α)) (samples : List In
     (hl1 : st.spikeChannels.length = st.spikeIds.length) (hl2 : st.waveforms.length = st.spikeIds.length)
     (hstore : ∀ p, p < st.spikeIds.length →
       st.waveforms.getD p [] = window A (samples.getD p 0) n (st.spikeChannels.getD p []))
-    (query : List Nat) (hq : ∀ q ∈ query, q ∈ st.spikeIds) (chq : List Nat) :
+    (query : List Nat) (hq : ∀ q ∈ query, q ∈ st.spikeIds) (chq : List Nat)
+    (hn : 0 < n) (hchq : chq ≠ []) :
     getSpikeWaveforms st query chq n = some (query.map fun q =>
       let p := st.spikeIds.idxOf q
       (List.range n).map fun r => chq.map fun (c : Nat) =>
@@ -371,7 +372,11 @@ theorem lookup_eq_window (st : Store α) (A : List (List α)) (samples : List In
     rw [List.all_eq_true]
     intro q hq'
     exact List.contains_iff_mem.mpr (hq q hq')
-  rw [hall]
+  have hnz : (n == 0 || chq.isEmpty) = false := by
+    cases chq with
+    | nil => exact absurd rfl hchq
+    | cons c t => simp; omega
+  rw [hall, hnz]
   simp only [Bool.not_true, Bool.false_eq_true, if_false]
   apply mapM_some_of_forall
   intro q hq'
